@@ -39,6 +39,7 @@ impl From<u8> for ConversionMode {
             1 => ConversionMode::ToMel,
             2 | 3 => ConversionMode::To81,
             4 => ConversionMode::To84,
+            5 => ConversionMode::To81MappingPreserved,
             _ => ConversionMode::Lossless,
         }
     }
